@@ -238,6 +238,46 @@ def run(tier):
             s3 = io.StringIO()
             Bf3File.write_bf3_format(s3, {}, hdr + fe.bf3file.to_binary(len(hdr), fe.session_key))
             B2.rec_bec2_read(rec, s3.getvalue(), [B2.dec_ecc(sa, pra), B2.dec_ecc(sb, prb)], {sa: pra, sb: prb}, orc, True, splice=1, label="duplicate-tag-different-keys")
+        # (c') crafted blocks at the edge of the value domain (round 7):
+        # (1) a well-formed customer-key block whose container carries a SHORT payload (0, 1, 15 bytes): it unwraps to a key that
+        #     differs from the update block's 16-byte key, in either block order -> the file must be refused;
+        # (2) foreign blocks (a tag the library does not know) with a value of 0, 1 and 255 bytes, before and after the opened
+        #     block: read, written again -> kept byte for byte
+        for ci, short in enumerate((b"", b"\x00", bytes(range(1, 16)))):
+            pu = G.Plan(r, rcpts, ["update"], explicit_key=True)
+            dcust = B2.dec_cust(G.key_with_class(r, "generic"))       # no customer-key slot: the container's payload is the key alone
+            fu = Bec2File(G.gen_content(r), pu.blocks, pu.key)
+            su = io.StringIO()
+            fu.write_file(su, pu.encs_w)
+            (t_upd, raw_upd), = B2.split_header(B2.to_binary_of_text(su.getvalue()))[:1]
+            raw_c = bytes(dcust[0].encrypt(short))
+            seams.take()
+            for order in (0, 1):
+                two = [(1, raw_c), (t_upd, raw_upd)]
+                if order:
+                    two.reverse()
+                hdr = BEC2_FILE_SIG + b"".join(bytes([t, len(v)]) + v for t, v in two) + b"\x00\x00"
+                sx = io.StringIO()
+                Bf3File.write_bf3_format(sx, {}, hdr + fu.bf3file.to_binary(len(hdr), fu.session_key))
+                B2.rec_bec2_read(rec, sx.getvalue(), [dcust, pu.decs["update"]], {}, orc, True, splice=1,
+                                 label="short-key-block-%d-order-%d" % (len(short), order))
+                B2.rec_bec2_read(rec, sx.getvalue(), [dcust, pu.decs["update"]], {}, orc, False, splice=1,
+                                 label="short-key-block-%d-order-%d-nocheck" % (len(short), order))
+                nspl += 1
+            val = (b"", b"\x5a", bytes(range(255)))[ci]
+            for order in (0, 1):
+                two = [(0x7F - ci, val, None), (t_upd, raw_upd, pu.meta[0])]
+                if order:
+                    two.reverse()
+                hdr = BEC2_FILE_SIG + b"".join(bytes([t, len(v)]) + v for t, v, _m in two) + b"\x00\x00"
+                sx = io.StringIO()
+                Bf3File.write_bf3_format(sx, {}, hdr + fu.bf3file.to_binary(len(hdr), fu.session_key))
+                evr = B2.rec_bec2_read(rec, sx.getvalue(), [pu.decs["update"]], {}, orc, True, label="foreign-block-%d-order-%d" % (len(val), order))
+                if evr["kind"] == "ok":
+                    g = Bec2File.read_file(io.StringIO(sx.getvalue()), [pu.decs["update"][0]])
+                    metas = [m if m is not None else {"tag": t, "raw": B(v), "passthru": True} for t, v, m in two]
+                    if list(g.auth_blocks.keys()) == [m["tag"] for m in metas]:
+                        G.rec_bec2_write(rec, seams, orc, g, metas, list(pu.encs_w), C.enc_specs(pu))
         # ephemeral keys whose shared secret has leading zero bytes (see C09): every block must still wrap the file key
         from ..ephsearch import find_leading_zero_ephemerals
         for (priv, pub) in rcpts.pairs[-2:]:
